@@ -26,7 +26,10 @@
 #include <ctime>
 #include <fstream>
 #include <iostream>
+#include <condition_variable>
+#include <functional>
 #include <map>
+#include <mutex>
 #include <memory>
 #include <sstream>
 #include <string>
@@ -396,12 +399,13 @@ static void print_stats()
 // e2e: real Frontend / Logger(Tsc) / BackendWorker. Script lines:
 //   cfg grace=<us> interval=<ms>          backend options (before the first poll)
 //   now tsc=<t> wall=<w>                  set the two clocks (every rdtsc() / system_clock read returns these)
-//   log <thread> <id>                     LOG_INFO on a short-lived thread (its own thread context), reads rdtsc = now
+//   log <thread> <id>                     LOG_INFO on frontend thread <thread> (one persistent thread, hence one thread context, per number); reads rdtsc = now
 //   poll                                  ManualBackendWorker::poll_one   => w:<id>@<timestamp> ...
 // oracle: timestamps handed to the sink are non-decreasing.
 // ---------------------------------------------------------------------------------------------------------------
 static std::vector<std::string> g_events;
 static std::vector<std::pair<std::string, uint64_t>> g_written;
+static std::map<std::string, uint64_t> g_logged_tsc;
 struct RecSink : quill::Sink
 {
   void write_log(quill::MacroMetadata const*, uint64_t ts, std::string_view, std::string_view, std::string const&,
@@ -414,8 +418,45 @@ struct RecSink : quill::Sink
   void flush_sink() override {}
 };
 
+// a frontend thread that lives for the whole script (one thread context per <thread> number)
+struct Worker
+{
+  std::mutex m;
+  std::condition_variable cv;
+  std::function<void()> job;
+  bool has_job{false}, done{false}, stop{false};
+  std::thread th;
+  Worker() : th([this] { loop(); }) {}
+  void loop()
+  {
+    std::unique_lock<std::mutex> lk(m);
+    for (;;)
+    {
+      cv.wait(lk, [this] { return has_job || stop; });
+      if (stop) { return; }
+      job();
+      has_job = false;
+      done = true;
+      cv.notify_all();
+    }
+  }
+  void run(std::function<void()> f)
+  {
+    std::unique_lock<std::mutex> lk(m);
+    job = std::move(f); has_job = true; done = false;
+    cv.notify_all();
+    cv.wait(lk, [this] { return done; });
+  }
+  ~Worker()
+  {
+    { std::unique_lock<std::mutex> lk(m); stop = true; cv.notify_all(); }
+    th.join();
+  }
+};
+
 static int e2e_main(char const* path)
 {
+  std::map<std::string, std::unique_ptr<Worker>> workers;
   std::ifstream in(path);
   std::string line;
   quill::BackendOptions bo;
@@ -463,9 +504,11 @@ static int e2e_main(char const* path)
         lg = quill::Frontend::create_or_get_logger("tsc", sink, quill::PatternFormatterOptions{"%(message)"}, quill::ClockSourceType::Tsc);
       }
       std::string const id = w[2];
-      std::thread t([&] { LOG_INFO(lg, "{}", id); });
-      t.join();
+      auto& wk = workers[w[1]];
+      if (!wk) { wk.reset(new Worker); }
+      wk->run([&] { LOG_INFO(lg, "{}", id); });
       obs = "tsc=" + std::to_string(g_tsc_now);
+      g_logged_tsc[id] = g_tsc_now;
     }
     else if (w[0] == "poll" && mw)
     {
@@ -485,6 +528,16 @@ static int e2e_main(char const* path)
     {
       std::cout << "ORACLE C05 timestamp-order statement " << g_written[i - 1].first << " written with timestamp " << g_written[i - 1].second
                 << " before statement " << g_written[i].first << " with timestamp " << g_written[i].second << "\n";
+      ++bad;
+    }
+  }
+  for (size_t i = 1; i < g_written.size(); ++i)
+  {
+    uint64_t const a = g_logged_tsc[g_written[i - 1].first], b = g_logged_tsc[g_written[i].first];
+    if (static_cast<int64_t>(b - a) < 0)
+    {
+      std::cout << "ORACLE C05 clock-value-order statement " << g_written[i - 1].first << " (clock value " << a << " read at the start of its log call) written before statement "
+                << g_written[i].first << " (clock value " << b << ")\n";
       ++bad;
     }
   }
